@@ -270,5 +270,9 @@ def run(repo: Repo, tier: str) -> Report:
            norm_stmt(sg[0].value) == "np.log10(sgrid).astype('float32')", f"{[norm_stmt(s_) for s_ in sg]}", sg[0] if sg else "sgrid")
     from ..rules import r_truthy
     r_truthy(rep, repo, "WhittakerSmoother", "whitswcv", ["nodata"], "0 is a legitimate nodata value (it is the one the test-suite uses); a truth test silently replaces or drops it")
+    from ..rules import r_stateless
+    r_stateless(rep, repo, [('WhittakerSmoother', 'whitswcv')])
+    from ..rules import ws2d_straight
+    ws2d_straight(rep, repo)
     rep.floor("C05 obligations", len(rep.obls), 70)
     return rep
